@@ -301,7 +301,8 @@ func runC12Random(t *testing.T, id string, idx int, scSeed, fSeed int64) {
 		if ph >= len(refEnds) || !ends[ph].converged {
 			break
 		}
-		if sc.Mode == "ordered" {
+		if sc.Mode == "ordered" || sc.EchoAnnotations {
+			// (likewise a hook that echoes what it observed: its answer is a function of the path)
 			// the hook's answer depends on what is ready when: with a strategy that never updates,
 			// which objects get replaced on the way depends on when a fault delayed a delete. The end
 			// state is judged by the fixed-point oracle above, not by equality with the reference
